@@ -321,6 +321,92 @@ fn failing_writers(threads: usize, rounds: usize, yield_every: u64) -> Result<(u
     Ok(((threads * rounds) as u64, format!("{threads} threads (increment / failing op= / read) x {rounds}: cell holds {}", canon(&final_value))))
 }
 
+/// one iterator value (`a~`) pulled from several threads: its position cell is advanced by the interpreter's own
+/// `i += 1`, so after T x K pulls the cursor stands at T x K (which elements each pull saw is not specified)
+fn shared_iterator(threads: usize, per_thread: usize, yield_every: u64) -> Result<(u64, String), String> {
+    let total = threads * per_thread;
+    let interp = Interpreter::with_stdlib();
+    let setup = format!("a := [0; {}]; i := mut 0; b := mut [int] []; it := ((() -> [int] {{ out := mut [int] []; k := mut 0; while *k < {} {{ out += [*k]; k += 1; }} return *out }})())~; it", total + 8, total + 8);
+    let Outcome::Value(it) = real::parse_exec_in(&interp, &setup, 50_000_000).0 else { return Err("iterator setup rejected".into()) };
+    let puller = parse_function("(it: () -> (bool, int), n: int) -> int { k := mut 0; seen := mut 0; while *k < n { k += 1; if it().0 { seen += 1; } } return *seen }").ok_or("puller rejected")?;
+    let barrier = Arc::new(Barrier::new(threads));
+    let mut handles = Vec::new();
+    for t in 0..threads {
+        let (f, it, barrier) = (puller.clone(), it.clone(), barrier.clone());
+        handles.push(std::thread::Builder::new().stack_size(64 << 20).spawn(move || -> Result<i64, String> {
+            verif::set_yield_every(if yield_every == 0 { 0 } else { yield_every + t as u64 % 2 });
+            let code = f.create_call(vec![it, Variable::Int(per_thread as i64)]).map_err(|e| format!("{e}"))?;
+            barrier.wait();
+            match real::guarded(|| code.exec()) {
+                Ok(Ok(Variable::Int(n))) => Ok(n),
+                Ok(other) => Err(format!("pulling thread got {other:?}")),
+                Err(p) => Err(format!("pulling thread panicked at {}: {}", p.site(), p.short_msg())),
+            }
+        }).map_err(|e| format!("spawn: {e}"))?);
+    }
+    let mut seen = 0i64;
+    for h in handles {
+        seen += h.join().map_err(|_| "worker thread died".to_string())??;
+    }
+    if seen != total as i64 {
+        return Err(format!("{threads} threads x {per_thread} pulls of one shared iterator over {} elements: {seen} pulls reported an element, expected {total}", total + 8));
+    }
+    // the next pull continues at position `total`
+    let Variable::Function(itf) = &it else { return Err("iterator is not a function".into()) };
+    let next = itf.clone().create_call(vec![]).map_err(|e| format!("{e}"))?.exec().map_err(|e| format!("{e:?}"))?;
+    let want = format!("(true, {total})");
+    if canon(&next) != want {
+        return Err(format!("after {total} pulls from {threads} threads the shared iterator's next step is {}, expected {want} (its cursor lost or gained an advance)", canon(&next)));
+    }
+    Ok((total as u64, format!("{threads} threads x {per_thread} pulls of one shared iterator: cursor at {total}")))
+}
+
+/// threads print values that contain a cell (cell of cell, cell in an array / tuple / struct) while others update the
+/// inner cell: every printed text shows a content the inner cell held at some time - never a placeholder
+fn printing_nested(threads: usize, rounds: usize, yield_every: u64) -> Result<(u64, String), String> {
+    let interp = Interpreter::with_stdlib();
+    let Outcome::Value(Variable::Tuple(vals)) = real::parse_exec_in(&interp, "inner := mut 5; outer := mut inner; (inner, outer, [inner, 1], (inner, \"x\"), struct{f := inner})", 10_000).0 else { return Err("setup rejected".into()) };
+    let writer = parse_function("(c: mut int, n: int) -> int { i := mut 0; while *i < n { i += 1; c += 1; } return *c }").ok_or("writer rejected")?;
+    let reader = parse_function("(v: any, n: int) -> [string] { out := mut [string] []; i := mut 0; while *i < n { i += 1; out += [std.convert.to_string(v)]; } return *out }").ok_or("reader rejected")?;
+    let barrier = Arc::new(Barrier::new(threads));
+    let mut handles = Vec::new();
+    for t in 0..threads {
+        let (writer, reader, vals, barrier) = (writer.clone(), reader.clone(), vals.clone(), barrier.clone());
+        handles.push(std::thread::Builder::new().stack_size(64 << 20).spawn(move || -> Result<Vec<String>, String> {
+            verif::set_yield_every(if yield_every == 0 { 0 } else { yield_every });
+            let code = if t % 2 == 0 {
+                writer.create_call(vec![vals[0].clone(), Variable::Int(rounds as i64)])
+            } else {
+                reader.create_call(vec![vals[1 + (t / 2) % 4].clone(), Variable::Int(rounds as i64)])
+            }
+            .map_err(|e| format!("{e}"))?;
+            barrier.wait();
+            match real::guarded(|| code.exec()) {
+                Ok(Ok(Variable::Array(a))) => Ok(a.iter().map(|v| match v { Variable::String(s) => s.to_string(), other => canon(other) }).collect()),
+                Ok(Ok(_)) => Ok(Vec::new()),
+                Ok(Err(e)) => Err(format!("failed with {e:?}")),
+                Err(p) => Err(format!("panicked at {}: {}", p.site(), p.short_msg())),
+            }
+        }).map_err(|e| format!("spawn: {e}"))?);
+    }
+    let writers = threads.div_ceil(2);
+    let max = 5 + (writers * rounds) as i64;
+    let mut texts = 0u64;
+    for h in handles {
+        for text in h.join().map_err(|_| "worker thread died".to_string())?? {
+            texts += 1;
+            // the inner cell's part of the text: `mut int <n>` with 5 <= n <= max
+            let Some(pos) = text.rfind("mut int ") else { return Err(format!("printed text {text:?} does not show the inner cell")) };
+            let digits: String = text[pos + 8..].chars().take_while(|c| c.is_ascii_digit() || *c == '-').collect();
+            match digits.parse::<i64>() {
+                Ok(n) if (5..=max).contains(&n) => {}
+                _ => return Err(format!("printed text {text:?} does not show a content the inner cell ever held (5..={max})")),
+            }
+        }
+    }
+    Ok(((threads * rounds) as u64, format!("{threads} threads ({writers} updating the inner cell, {} printing values that contain it) x {rounds}: {texts} texts, all showing a held content", threads / 2)))
+}
+
 /// readers print cells (incl. a cell that contains itself) while writers assign
 fn readers_writers(kind: usize, threads: usize, rounds: usize, yield_every: u64) -> Result<(u64, String), String> {
     let interp = Interpreter::with_stdlib();
@@ -401,6 +487,8 @@ pub fn child(spec: &str) {
             r if r.starts_with("readers") => readers_writers(r[7..].parse().unwrap_or(0), threads, size, yld),
             "code" => shared_code(threads, size),
             "failing" => failing_writers(threads.max(3), size, yld),
+            "iterator" => shared_iterator(threads, size, yld),
+            "printing" => printing_nested(threads.max(2), size, yld),
             other => Err(format!("unknown scenario {other}")),
         }
     };
@@ -433,7 +521,9 @@ pub fn run(cfg: &Cfg, rep: &mut Report) {
         }
         let threads = *rng.pick(&[2usize, 2, 3, 4, 4, 8, 16]);
         let yld = *rng.pick(&[0usize, 0, 1, 2, 5]);
-        let (scenario, size) = match rng.below(12) {
+        let (scenario, size) = match rng.below(16) {
+            12 | 13 => ("iterator".to_string(), *rng.pick(&[50usize, 200, 800])),
+            14 | 15 => ("printing".to_string(), *rng.pick(&[20usize, 100, 400])),
             0..=5 => (format!("cell{}", rng.below(OPS.len())), *rng.pick(&[3usize, 10, 50, 200, 1000])),
             6 | 7 => ("isolated".to_string(), *rng.pick(&[1usize, 3, 10])),
             8 => (format!("readers{}", rng.below(4)), *rng.pick(&[5usize, 30, 100])),
